@@ -306,7 +306,7 @@ func checkC20(c *Ctx) {
 		"(C20.counter) every store to refCount is a function of its previous value (reservation discipline: ±k, or the capped target computed from it) - an assignment from len(childs) forgets head-room reserved for spawns still in flight, which is what lets the pool exceed --max-procs; " +
 		"(C20.cap) the scale-up batch is min(refCount+step, MaxProcs) − refCount and the replacement batch InitProcs − refCount is spawned only when positive; " +
 		"(C20.worker) in StartWorker every path from one Accept to the next passes the select that waits for the handler's completion, the timeout channel is created per request inside the loop, BUSY is reported before the handler starts, IDLE only on the completion branch, " +
-		"and the timeout branch reports STOPPED and cannot reach another Accept (it exits). (C20.env) cmd.Env = append(os.Environ(), own entries…): the configured timeout / pipe id win over inherited variables. NOT decided: the bounds themselves under real scheduling, recovery after crashes, pipe framing - these quantify over schedules and fault sequences (a different family of technique)."
+		"and the timeout branch reports STOPPED and cannot reach another Accept (it exits). (C20.env) cmd.Env = append(os.Environ(), own entries…): the configured timeout / pipe id win over inherited variables. (C20.channels) addChan / delChan are sent on only by spawnProcess (and the goroutine it starts), updateChan only by the pipe reader; every increase of refCount is followed by the goroutine that starts the reserved workers. NOT decided: the bounds themselves under real scheduling, recovery after crashes, pipe framing - these quantify over schedules and fault sequences (a different family of technique)."
 	R.Assumptions = []string{"pkg/server can only be type-checked for darwin/windows at the pinned commit; nothing of it is built or run here", "one goroutine runs maintainChildState"}
 	su := c.Server()
 	su.buildSSA()
@@ -367,6 +367,17 @@ func checkC20(c *Ctx) {
 			key := su.fname(root) + " accesses " + n
 			if f != root {
 				key = su.fname(root) + " (closure) accesses " + n
+			} else if sites := su.staticCallers(root); len(sites) == 1 && !owners[su.fname(root)] {
+				// a function whose only use is one `defer` / `go` statement is that statement's closure under a name
+				_, isDefer := sites[0].(*ssa.Defer)
+				_, isGo := sites[0].(*ssa.Go)
+				if isDefer || isGo {
+					outer := sites[0].Parent()
+					for outer.Parent() != nil {
+						outer = outer.Parent()
+					}
+					key = su.fname(outer) + " (closure) accesses " + n
+				}
 			}
 			if seen[key] {
 				continue
@@ -440,7 +451,18 @@ func checkC20(c *Ctx) {
 		}
 		nStore := 0
 		kinds := map[string]int{}
-		for _, in := range instrsOf(f) {
+		// the bookkeeping goroutine's code: the loop itself and the helpers that run on it (see C20.owner)
+		bk := []*ssa.Function{f}
+		for _, h := range su.srcFuncs("pkg/server") {
+			if h != f && h.Parent() == nil && owners[su.fname(h)] && su.fname(h) != "pkg/server.NewZnPMServer" {
+				bk = append(bk, h)
+			}
+		}
+		var bkInstrs []ssa.Instruction
+		for _, h := range bk {
+			bkInstrs = append(bkInstrs, instrsOf(h)...)
+		}
+		for _, in := range bkInstrs {
 			st, ok := in.(*ssa.Store)
 			if !ok {
 				continue
@@ -510,7 +532,12 @@ func checkC20(c *Ctx) {
 					}
 					return false
 				}
-				isSelect := func(in ssa.Instruction) bool { _, ok := in.(*ssa.Select); return ok }
+				// the next event is taken at the select (or, in a helper, after it returns)
+				isSelect := func(in ssa.Instruction) bool {
+					_, ok := in.(*ssa.Select)
+					_, isRet := in.(*ssa.Return)
+					return ok || isRet
+				}
 				okRes := reachableAvoiding(st.Block(), instrIndex(st)+1, isSelect, isSpawnGo) == nil
 				R.check(okRes, "C20.counter", key+":reserves-for-own-spawns", su.pos(st.Pos()), "the increase is followed by the goroutine that starts the reserved workers", "refCount is increased on a branch that starts no worker: workers are counted twice (once when planned, once here), the counter drifts above the real pool size and replacements stop (the pool falls below --init-procs)")
 			}
@@ -518,31 +545,33 @@ func checkC20(c *Ctx) {
 		R.min("C20.counter", 4)
 		// cap: a comparison finalProcNum > MaxProcs clamps, and addNum = final − current
 		clamp, batch, repl := false, false, false
-		for _, b := range f.Blocks {
-			ifi, ok := b.Instrs[len(b.Instrs)-1].(*ssa.If)
-			if !ok {
-				continue
-			}
-			bo, ok := ifi.Cond.(*ssa.BinOp)
-			if !ok {
-				continue
-			}
-			if bo.Op == token.GTR && flowsFromBin(bo.X, isRefLoad) {
-				clamp = true
-			}
-			if bo.Op == token.LSS && isRefLoad(bo.X) {
-				// replacement only when refCount < InitProcs: the spawn closure is created on the true edge
-				for _, in := range instrsOf(f) {
-					if g, isGo := in.(*ssa.Go); isGo && b.Succs[0].Dominates(g.Block()) {
-						repl = true
+		for _, f := range bk {
+			for _, b := range f.Blocks {
+				ifi, ok := b.Instrs[len(b.Instrs)-1].(*ssa.If)
+				if !ok {
+					continue
+				}
+				bo, ok := ifi.Cond.(*ssa.BinOp)
+				if !ok {
+					continue
+				}
+				if bo.Op == token.GTR && flowsFromBin(bo.X, isRefLoad) {
+					clamp = true
+				}
+				if bo.Op == token.LSS && isRefLoad(bo.X) {
+					// replacement only when refCount < InitProcs: the spawn closure is created on the true edge
+					for _, in := range instrsOf(f) {
+						if g, isGo := in.(*ssa.Go); isGo && b.Succs[0].Dominates(g.Block()) {
+							repl = true
+						}
 					}
 				}
 			}
-		}
-		for _, in := range instrsOf(f) {
-			if bo, ok := in.(*ssa.BinOp); ok && bo.Op == token.SUB {
-				if _, isPhi := bo.X.(*ssa.Phi); isPhi && isRefLoad(bo.Y) {
-					batch = true
+			for _, in := range instrsOf(f) {
+				if bo, ok := in.(*ssa.BinOp); ok && bo.Op == token.SUB {
+					if _, isPhi := bo.X.(*ssa.Phi); isPhi && isRefLoad(bo.Y) {
+						batch = true
+					}
 				}
 			}
 		}
